@@ -21,6 +21,8 @@ import z3
 from . import seqs, theory
 from .source import ClassInfo, FunctionInfo, ModuleInfo, SourceIndex
 from .types import TypeParser
+from . import containers   # containers
+from .containers import SymKey, SymMap, SymSet   # containers
 from .values import (BoundBuiltin, ClassV, EnumName, EnumV, ExcV, ExtV, FlagV, FuncV, InterpError,
                      LambdaV, Lazy, ModV, Opaque, SObj, SymFloat, Unsupported, as_int,
                      as_z3bool, as_z3int, as_z3real, is_boollike, is_fraclike, is_intlike,
@@ -158,6 +160,7 @@ class Path:
         self.modular: set = set()
         self.modular_calls: dict = {}
         self.merge_inner: list | None = None
+        self.loop_guard = None      # containers: write check while a loop body is verified by invariant
 
     # ------------------------------------------------------------------ pc
     def all_pc(self):
@@ -254,6 +257,8 @@ class Path:
 
     # --------------------------------------------------------------- merge
     def write(self, container: dict, key, value):
+        if self.loop_guard is not None:
+            containers.check_write(self, container, key)   # containers
         if self.txns:
             cid = id(container)
             if not any(cid in t.fresh for t in self.txns):
@@ -262,6 +267,9 @@ class Path:
 
     def new_dict(self, d: dict):
         """register a dict (frame locals / object fields) created during a merge attempt"""
+        if self.loop_guard is not None:   # containers
+            self.loop_guard['fresh'].add(id(d))
+            self.loop_guard['keep'].append(d)
         if self.txns:
             self.txns[-1].fresh.add(id(d))
             self.txns[-1].keep.append(d)
@@ -316,7 +324,8 @@ class Path:
                     nob = len(self.obligations)
                     if nob != t.nobl:
                         raise MergeAbort()
-                except (SymRaise, _Return, _Break, _Continue, MergeAbort, PathInfeasible):
+                except (SymRaise, _Return, _Break, _Continue, MergeAbort, PathInfeasible, Unsupported):
+                    # (Unsupported: the speculated arm may be dead; the fork below decides feasibility first)
                     self._rollback(t)
                     raise MergeAbort()
                 finals = self._rollback(t)
@@ -396,6 +405,8 @@ class Path:
             return a
         if isinstance(a, seqs.KINDS) or isinstance(b, seqs.KINDS):
             return seqs.ite_value(self, cond, a, b)
+        if isinstance(a, SymKey) and isinstance(b, SymKey) and a.kname == b.kname:   # containers
+            return containers.ite_key(cond, a, b)
         raise MergeAbort()
 
     # --------------------------------------------------------------- force
@@ -437,6 +448,10 @@ class Path:
                 ft = self.ex.types.parse(ann, owner.module.name, ci)
                 obj.fields[f] = Lazy(ft, f'{name}.{f}')
             self.inputs[name] = obj
+            for f in list(obj.fields):   # containers: a union-typed override is resolved now, so that quantified
+                ov = self.ex.overrides.get(f'{name}.{f}')   # spec clauses over the field never have to fork
+                if ov is not None and ov[0] == 'union':
+                    obj.fields[f] = self.force(obj.fields[f])
             inv = self.ex.invariants.get(ci.qualname)
             if inv is None:
                 for c in self.index.mro(ci):
@@ -463,6 +478,8 @@ class Path:
             b = z3.Int(name + '#bits')
             self.assume(z3.And(b >= 0, b < (1 << 64)), fact=True)
             return SymFloat(b)
+        if k in ('key', 'map', 'set', 'kseq'):   # containers
+            return containers.fresh(self, typ, name)
         if k == 'opaque':
             return Opaque(f'{name}:{typ[1]}')
         if k == 'any':
@@ -720,6 +737,8 @@ class Path:
             if hk in v:
                 return v[hk]
             raise SymRaise(mk_exc('KeyError'))
+        if isinstance(v, SymMap):   # containers
+            return containers.map_getitem(self, v, k)
         if isinstance(v, SObj):
             return self.call_method(v, '__getitem__', [k], {})
         if isinstance(v, (ExtV, ClassV)):
@@ -844,6 +863,8 @@ class Path:
         # object operands -> dunder dispatch
         if isinstance(a, SObj) or isinstance(b, SObj):
             return self.binop_obj(op, a, b)
+        if isinstance(a, SymSet) or isinstance(b, SymSet):   # containers
+            return containers.set_binop(self, op, a, b)
         if isinstance(a, FlagV) and isinstance(b, FlagV):
             if op is ast.BitOr:
                 return FlagV(a.cls, a.bits | b.bits)
@@ -1147,6 +1168,8 @@ class Path:
             return a is None and b is None
         if isinstance(a, seqs.KINDS) or isinstance(b, seqs.KINDS):
             return seqs.identical(self, a, b)
+        if isinstance(a, SymKey) or isinstance(b, SymKey):   # containers
+            return containers.key_identical(a, b)
         if isinstance(a, SObj) or isinstance(b, SObj):
             return a is b
         if is_boollike(a) and is_boollike(b):
@@ -1168,6 +1191,8 @@ class Path:
             return a is None and b is None
         if isinstance(a, seqs.KINDS) or isinstance(b, seqs.KINDS):
             return seqs.equal(self, a, b)
+        if isinstance(a, SymKey) or isinstance(b, SymKey):   # containers
+            return containers.key_equal(a, b)
         if isinstance(a, SObj) or isinstance(b, SObj):
             NI = ExtV('builtins.NotImplemented')
             if isinstance(a, SObj):
@@ -1242,6 +1267,8 @@ class Path:
     def contains(self, container, item):
         if isinstance(container, seqs.KINDS):
             return seqs.contains(self, container, item)
+        if isinstance(container, (SymMap, SymSet)):   # containers
+            return containers.contains(self, container, item)
         if isinstance(container, (tuple, list)):
             rs = [self.equal(x, item) for x in container]
             if any(r is True for r in rs):
@@ -1312,6 +1339,8 @@ class Path:
                 return self.class_attr(ca[0], attr, ca[1])
             if attr == '__name__':
                 return ci.name
+            if attr == '__mro__':   # repository classes only (external bases such as ABC/object are never dispatch keys)
+                return tuple(ClassV(c) for c in self.index.mro(ci))
             raise SymRaise(mk_exc('AttributeError'), f'{ci.name}.{attr}')
         if isinstance(v, ModV):
             mi = self.index.module(v.name)
@@ -1363,6 +1392,8 @@ class Path:
             if attr in ('numerator', 'denominator'):
                 return self.ex.frac_part(self, v, attr)
             return BoundBuiltin(f'Fraction.{attr}', v)
+        if isinstance(v, containers.SYM):   # containers
+            return BoundBuiltin(containers.bound_name(v, attr), v)
         if isinstance(v, (list, dict, set, tuple, str, float)):
             return BoundBuiltin(f'{type(v).__name__}.{attr}', v)
         if isinstance(v, SymFloat):
@@ -1633,6 +1664,8 @@ class Path:
 
     def ex_Assign(self, st, fr):
         v = self.ev(st.value, fr)
+        if isinstance(v, (dict, set)) and not v:   # containers
+            v = containers.retype_literal(self, st, v, fr)
         for t in st.targets:
             self.assign(t, v, fr)
 
@@ -1660,6 +1693,10 @@ class Path:
     def setitem(self, obj, k, v):
         if self.txns:
             raise MergeAbort()
+        if isinstance(obj, SymMap):   # containers
+            return containers.map_setitem(self, obj, k, v)
+        if self.loop_guard is not None:   # containers
+            containers.guard_concrete(self, obj)
         if isinstance(obj, list):
             if is_z3(k):
                 raise Unsupported('symbolic list store')
@@ -1825,6 +1862,8 @@ class Path:
         it = self.ev(st.iter, fr)
         if isinstance(it, seqs.SymSeq) or (isinstance(it, seqs.SymRange) and not isinstance(it.length(), int)):
             return seqs.loop_rule(self, st, it, fr)
+        if containers.is_symbolic_iterable(it):   # containers
+            return containers.loop_rule(self, st, fr, it)
         items = self.iterate(it)
         broke = False
         for item in items:
